@@ -270,7 +270,8 @@ Definition tids (o : op) : list nat :=
 (* ---- observable behaviour of an operation ---- *)
 Definition obs_reads (o : op) : list loc :=
   match o with
-  | ProvReq i _ QDiscovery => map (fun e => LInst i (FEp e)) all_eps    (* advertised endpoints *)
+  | ProvReq i _ QDiscovery =>                                          (* advertised endpoints, claims and scopes *)
+      map (fun e => LInst i (FEp e)) all_eps ++ [LG GClaims; LG GScopes]
   | RPCall i c _ | RSIntrospect i c | TEExchange i c =>
       [LClient c CCheckRedirect; LInst i FURL]         (* are redirects followed?  which issuer are requests / assertions addressed to? *)
   | KSVerify i _ => [LInst i FURL]                     (* which issuer's tokens are accepted? *)
@@ -279,7 +280,11 @@ Definition obs_reads (o : op) : list loc :=
   end.
 (* the part of the behaviour that is a function of the request alone *)
 Definition const_result (o : op) : list val :=
-  match o with HandlerReq _ _ _ r => [S r] | _ => [] end.
+  match o with
+  | HandlerReq _ _ _ r => [S r]
+  | ProvReq _ _ QUserinfo => [1]      (* a code flow followed by userinfo succeeds on a provider of the driver's configuration *)
+  | _ => []
+  end.
 Definition obsval (l : loc) (v : val) : val :=
   match l with LClient _ CCheckRedirect => if v =? 0 then 0 else 1 | _ => v end.
 Definition result (o : op) (h : heap) : list val := const_result o ++ map (fun l => obsval l (h l)) (obs_reads o).
